@@ -218,6 +218,9 @@ def coerce(v, ty):
                 return SymVal(ty, v.term, v.meta)
         except Exception:
             pass
+    if v.ty == T.TList(T.NONE) and ty[0] == 'list' and ty[1][0] == 'opt':
+        # a list of Nones ([None] * n) as a list of optionals: every element is None
+        return mk_seq(ty, seq_len(v), z3.K(z3.IntSort(), T.opt_none(ty[1])))
     if v.ty[0] in ('list', 'arr') and v.meta == ('empty',) and ty[0] in ('list', 'arr'):
         return empty_seq(ty)
     if v.ty[0] == 'arr' and ty[0] == 'arr' and v.ty[1] == T.BOOL and ty[1] == T.INT:
